@@ -301,6 +301,22 @@ pub fn finish(ctx: &Ctx, level: &str, rule: &str, exhaustive: bool, states: Opti
             println!("  {} x{}", k, n);
         }
     }
+    if std::env::var("VERIF_DEBUG").is_ok() {
+        // coarse overview for triage: kind + first two spine levels, one example each
+        let mut groups: BTreeMap<String, (usize, &Violation)> = BTreeMap::new();
+        for v in &violations {
+            let coarse: String = {
+                let parts: Vec<&str> = v.class.split('@').collect();
+                parts.iter().take(2).cloned().collect::<Vec<_>>().join("@")
+            };
+            let e = groups.entry(format!("{} | {}", v.kind, coarse)).or_insert((0, v));
+            e.0 += 1;
+        }
+        println!("---- DEBUG overview: {} groups", groups.len());
+        for (k, (n, v)) in &groups {
+            println!("{} x{}\n      in:  {}\n      exp: {}\n      obs: {}", k, n, truncate(&v.input.replace('\n', "\\n"), 160), truncate(&v.expected.replace('\n', "\\n"), 160), truncate(&v.observed.replace('\n', "\\n"), 260));
+        }
+    }
     let hits = ctx.known_hits.lock().unwrap().clone();
     for e in &ctx.known {
         if let Some((n, example)) = hits.get(&e.id) {
